@@ -224,8 +224,9 @@ func slotMustDepend(c *Ctx, s versionSlot, comp string) bool {
 }
 
 func checkC15(c *Ctx, r *Report) {
-	r.Rules = []string{"F14 file name and metadata state the same identity components", "F14 architecture after the same translation, stated plainly", "file name ends in the conventional extension", "W3 file-name side effects are idempotent", "CLI target resolution", "CLI packager inference"}
+	r.Rules = []string{"F14 file name and metadata state the same identity components", "F14 architecture after the same translation, stated plainly", "file name ends in the conventional extension", "W3 file-name side effects are idempotent", "CLI target resolution", "CLI packager inference", "F14-same-expr the same expression on both sides (rpm, apk, archlinux release)", "CLI working directory unchanged while the target is resolved"}
 	r.Explanation = "Agreement and structure rules over go/ssa and the parsed templates. (F14) per packager and per identity component (name, version, prerelease, version metadata, release, architecture) the conventional file name depends on the component on every live path (abstract evaluation with the component fixed non-empty, intersection of provenance at joins) exactly when the inner metadata states it (control template rows / rpm metadata fields / .PKGINFO keys, the same way); both ConventionalFileName and Package apply the same architecture translation before anything reads the architecture, and the metadata's architecture derives from the translated architecture alone; the file name's format ends in the packager's ConventionalExtension constant; the writes ConventionalFileName performs on the Info are idempotent (C11-W3). (CLI) in doPackage the path handed to os.Create is the phi of the given target, the conventional name (on the target-empty edge) and path.Join(target, conventional name) (on the is-a-directory edge); Info.Target receives the same value; the packager is taken from the target's extension only on the packager-empty edge."
+	r.Explanation += " (F14-same-expr) rpm: name, version, release and architecture in the file name are the expressions written to the metadata; apk: the template's pkgver function; archlinux: the release expression. The command changes the working directory nowhere on its packaging path."
 	r.Assumptions = []string{"concrete strings are not computed; 'depends on' is provenance, not equality of rendered text"}
 	for _, pk := range c.Packagers {
 		if pk.Format == "" {
